@@ -1,14 +1,15 @@
 package main
 
 import (
-	"sort"
-	"net/http"
-	"encoding/json"
 	"bytes"
-	"net/http/httptest"
+	"encoding/json"
 	"fmt"
 	"io"
+	"net/http"
+	"net/http/httptest"
+	"reflect"
 	"runtime"
+	"sort"
 	"strings"
 
 	icl "github.com/moov-io/imagecashletter"
@@ -402,6 +403,7 @@ func runC16(cfg *config) *Report {
 		}
 	}
 	rep.Evaluations = evals
+	evals += sharedOptions(rep, inputs2(inputs))
 	evals += uploadFragmentation(cfg, rep, r)
 	evals += afterCutUploads(rep, r, "C16")
 	rep.Evaluations = evals
@@ -627,6 +629,104 @@ func uploadFragmentation(cfg *config, rep *Report, r rng) int {
 						Replay: map[string]any{"kind": q.Kind, "content_type": q.CT, "multipart": q.Multipart, "enc": e.String(), "fragment": frag, "body": hx(out), "whole": ref[:min(120, len(ref))], "fragmented": got[:min(120, len(got))]}})
 					break
 				}
+			}
+		}
+	}
+	return n
+}
+
+// inputs2: the whole-file inputs, as (bytes, options) pairs
+func inputs2[T any](in []T) [][2]any {
+	var out [][2]any
+	for _, x := range in {
+		v := reflect.ValueOf(x)
+		if v.FieldByName("desc").String() == "whole file" {
+			b := v.FieldByName("b").Bytes()
+			e := encCfg{LP: v.FieldByName("e").FieldByName("LP").Bool(), EBCDIC: v.FieldByName("e").FieldByName("EBCDIC").Bool()}
+			out = append(out, [2]any{append([]byte{}, b...), e})
+		}
+	}
+	return out
+}
+
+// hookReader delivers its data in two parts and runs hook between them (once)
+type hookReader struct {
+	data []byte
+	at   int
+	hook func()
+	done bool
+}
+
+func (h *hookReader) Read(p []byte) (int, error) {
+	if len(h.data) == 0 {
+		return 0, io.EOF
+	}
+	n := len(h.data)
+	if !h.done {
+		if h.at <= 0 {
+			h.done = true
+			h.hook()
+		} else if n > h.at {
+			n = h.at
+		}
+	}
+	if n > len(p) {
+		n = len(p)
+	}
+	copy(p, h.data[:n])
+	h.data = h.data[n:]
+	h.at -= n
+	return n, nil
+}
+
+// sharedOptions: reader options are values: ONE option slice configures two Readers that are alive at the same time - the
+// first is half way through its input (cut inside a record) when the second reads another input completely, then the first
+// goes on.  Each must return what it returns alone.
+func sharedOptions(rep *Report, files [][2]any) int {
+	n := 0
+	for i := 0; i+1 < len(files) && n < 24; i++ {
+		a, ea := files[i][0].([]byte), files[i][1].(encCfg)
+		var b []byte
+		for j := i + 1; j < len(files); j++ {
+			if files[j][1].(encCfg) == ea && !bytes.Equal(files[j][0].([]byte), a) {
+				b = files[j][0].([]byte)
+				break
+			}
+		}
+		if b == nil {
+			continue
+		}
+		for _, at := range []int{len(a) / 3, len(a)/2 + 7} {
+			opts := readerOpts(ea, 1<<16)
+			soloA, pa := readChunked(a, ea, 1<<16, []int{len(a) + 1}, false)
+			soloB, pb := readChunked(b, ea, 1<<16, []int{len(b) + 1}, false)
+			if pa != nil || pb != nil {
+				continue
+			}
+			var gotB string
+			var gotA string
+			func() {
+				defer func() {
+					if p := recover(); p != nil {
+						gotA = fmt.Sprint("panic: ", p)
+					}
+				}()
+				hr := &hookReader{data: append([]byte{}, a...), at: at, hook: func() {
+					fB, eB := icl.NewReader(&chunkReader{data: append([]byte{}, b...), sched: []int{len(b)/2 + 3}}, opts...).Read()
+					gotB = canonErr(eB) + " # " + dumpFile(&fB)
+				}}
+				fA, eA := icl.NewReader(hr, opts...).Read()
+				gotA = canonErr(eA) + " # " + dumpFile(&fA)
+			}()
+			n++
+			rep.count("shared-options:" + ea.String())
+			if gotA != soloA || gotB != soloB {
+				which := "the reader that was interrupted"
+				if gotA == soloA {
+					which = "the reader that ran in between"
+				}
+				rep.violate(Violation{Key: "C16:readers-sharing-one-option-slice:" + ea.String(), What: "two Readers configured from one option slice and alive at the same time: " + which + " returns something else than alone",
+					Replay: map[string]any{"enc": ea.String(), "first_input": hx(a), "second_input": hx(b), "first_interrupted_after": at, "first_alone": soloA[:min(200, len(soloA))], "first_got": gotA[:min(200, len(gotA))], "second_alone": soloB[:min(200, len(soloB))], "second_got": gotB[:min(200, len(gotB))]}})
 			}
 		}
 	}
